@@ -28,6 +28,7 @@ import (
 	"strconv"
 	"strings"
 
+	"golang.org/x/tools/go/ast/astutil"
 	"golang.org/x/tools/go/packages"
 )
 
@@ -98,6 +99,10 @@ func main() {
 			}
 			present[rel] = true
 			needVrt := false
+			// pass 0: channel operations, select, time.Sleep, sync/atomic calls
+			if rewriteChannels(p, f) {
+				needVrt = true
+			}
 			// pass 1: go statements and map ranges
 			var rewriteErr error
 			ast.Inspect(f, func(n ast.Node) bool {
@@ -346,6 +351,164 @@ func rewriteGo(p *packages.Package, g *ast.GoStmt, siteID *int, sites *[]siteInf
 	}
 	blk.List = append(blk.List, goCall)
 	return blk
+}
+
+func vrtCall(name string, args ...ast.Expr) *ast.CallExpr {
+	return &ast.CallExpr{Fun: &ast.SelectorExpr{X: ast.NewIdent("vrt__"), Sel: ast.NewIdent(name)}, Args: args}
+}
+
+// rewriteChannels routes channel operations, blocking selects, time.Sleep and sync/atomic calls
+// through package vrt (see vrt_src/chan.go).  Communication clauses of select statements keep their
+// real channel operations; a select without default is bracketed by ExtBlock / ExtResume, one with
+// a default clause never blocks and only gets a scheduling point in front of it.
+func rewriteChannels(p *packages.Package, f *ast.File) bool {
+	changed := false
+	raw := map[ast.Node]bool{}
+	isChan := func(e ast.Expr) bool {
+		tv, ok := p.TypesInfo.Types[e]
+		if !ok || tv.Type == nil {
+			return false
+		}
+		_, ok = tv.Type.Underlying().(*types.Chan)
+		return ok
+	}
+	selID := 0
+	astutil.Apply(f, func(c *astutil.Cursor) bool {
+		switch n := c.Node().(type) {
+		case *ast.CommClause:
+			switch cm := n.Comm.(type) {
+			case *ast.SendStmt:
+				raw[cm] = true
+			case *ast.ExprStmt:
+				raw[ast.Unparen(cm.X)] = true
+			case *ast.AssignStmt:
+				if len(cm.Rhs) == 1 {
+					raw[ast.Unparen(cm.Rhs[0])] = true
+				}
+			}
+		}
+		return true
+	}, func(c *astutil.Cursor) bool {
+		switch n := c.Node().(type) {
+		case *ast.SendStmt:
+			if raw[n] {
+				return true
+			}
+			c.Replace(&ast.ExprStmt{X: &ast.CallExpr{Fun: vrtCall("ChanSender", n.Chan), Args: []ast.Expr{n.Value}}})
+			changed = true
+		case *ast.UnaryExpr:
+			if n.Op != token.ARROW || raw[n] {
+				return true
+			}
+			two := false
+			switch par := c.Parent().(type) {
+			case *ast.AssignStmt:
+				two = len(par.Lhs) == 2 && len(par.Rhs) == 1 && par.Rhs[0] == ast.Expr(n)
+			case *ast.ValueSpec:
+				two = len(par.Names) == 2 && len(par.Values) == 1 && par.Values[0] == ast.Expr(n)
+			}
+			if two {
+				c.Replace(vrtCall("ChanRecv2", n.X))
+			} else {
+				c.Replace(vrtCall("ChanRecv", n.X))
+			}
+			changed = true
+		case *ast.CallExpr:
+			switch fn := n.Fun.(type) {
+			case *ast.Ident:
+				if b, ok := p.TypesInfo.Uses[fn].(*types.Builtin); ok && b.Name() == "close" && len(n.Args) == 1 {
+					n.Fun = &ast.SelectorExpr{X: ast.NewIdent("vrt__"), Sel: ast.NewIdent("ChanClose")}
+					changed = true
+				}
+			case *ast.SelectorExpr:
+				obj := p.TypesInfo.Uses[fn.Sel]
+				if fobj, ok := obj.(*types.Func); ok && fobj.Pkg() != nil {
+					switch {
+					case fobj.Pkg().Path() == "time" && fobj.Name() == "Sleep" && fobj.Type().(*types.Signature).Recv() == nil:
+						n.Fun = &ast.SelectorExpr{X: ast.NewIdent("vrt__"), Sel: ast.NewIdent("Sleep")}
+						changed = true
+					case fobj.Pkg().Path() == "sync/atomic":
+						n.Fun = vrtCall("AP", n.Fun)
+						changed = true
+					}
+				}
+			}
+		case *ast.RangeStmt:
+			if isChan(n.X) {
+				n.X = vrtCall("ChanRange", n.X)
+				changed = true
+			}
+		case *ast.SelectStmt:
+			if _, labeled := c.Parent().(*ast.LabeledStmt); labeled {
+				return true // `break L` must keep naming the select: left alone
+			}
+			hasDefault := false
+			for _, cl := range n.Body.List {
+				if cl.(*ast.CommClause).Comm == nil {
+					hasDefault = true
+				}
+			}
+			changed = true
+			if hasDefault {
+				c.Replace(&ast.BlockStmt{List: []ast.Stmt{&ast.ExprStmt{X: vrtCall("Yield")}, n}})
+				return true
+			}
+			selID++
+			id := fmt.Sprintf("vsel%d_id", selID)
+			var refs []ast.Expr
+			for _, cl := range n.Body.List {
+				cc := cl.(*ast.CommClause)
+				// the channel of the communication, named a second time for the scheduler's
+				// bookkeeping - only when naming it twice cannot have an effect
+				var ref ast.Expr
+				switch cm := cc.Comm.(type) {
+				case *ast.SendStmt:
+					if simpleExpr(cm.Chan) {
+						ref = vrtCall("SelSend", cm.Chan)
+					}
+				case *ast.ExprStmt:
+					if u, ok := ast.Unparen(cm.X).(*ast.UnaryExpr); ok && u.Op == token.ARROW && simpleExpr(u.X) {
+						ref = vrtCall("SelRecv", u.X)
+					}
+				case *ast.AssignStmt:
+					if len(cm.Rhs) == 1 {
+						if u, ok := ast.Unparen(cm.Rhs[0]).(*ast.UnaryExpr); ok && u.Op == token.ARROW && simpleExpr(u.X) {
+							ref = vrtCall("SelRecv", u.X)
+						}
+					}
+				}
+				if ref != nil {
+					refs = append(refs, ref)
+					cc.Body = append([]ast.Stmt{&ast.ExprStmt{X: vrtCall("ExtResumeSel", ast.NewIdent(id), ref)}}, cc.Body...)
+				} else {
+					cc.Body = append([]ast.Stmt{&ast.ExprStmt{X: vrtCall("ExtResume", ast.NewIdent(id))}}, cc.Body...)
+				}
+			}
+			c.Replace(&ast.BlockStmt{List: []ast.Stmt{
+				&ast.ExprStmt{X: vrtCall("Yield")},
+				&ast.AssignStmt{Lhs: []ast.Expr{ast.NewIdent(id)}, Tok: token.DEFINE, Rhs: []ast.Expr{vrtCall("ExtBlock", refs...)}},
+				n,
+			}})
+		}
+		return true
+	})
+	return changed
+}
+
+// simpleExpr: identifiers, field selections and parenthesised forms of them - evaluating one twice
+// has no effect.
+func simpleExpr(e ast.Expr) bool {
+	switch x := e.(type) {
+	case *ast.Ident:
+		return true
+	case *ast.SelectorExpr:
+		return simpleExpr(x.X)
+	case *ast.ParenExpr:
+		return simpleExpr(x.X)
+	case *ast.StarExpr:
+		return simpleExpr(x.X)
+	}
+	return false
 }
 
 func addImport(f *ast.File, name, path string) {
